@@ -4,46 +4,59 @@ package main
 //
 // An op line is a scenario:
 //
-//	pipe dw=<n> vw=<n> buf=<n> | <cmd> <cmd> ...
+//	pipe dw=<n> vw=<n> buf=<n> [mp=<n>] | <cmd> <cmd> ...
 //
 // dw / vw = decode / validate workers (vw=0: validation disabled), buf =
-// PrefetchBufferSize. Commands run sequentially on the scenario goroutine:
+// PrefetchBufferSize, mp = MaxPendingBlocks (default: the library default).
+// Commands run sequentially on the scenario goroutine:
 //
 //	s:<kind>:<to>:<dd>:<vd>:<ad>:<hold>   Submit one block and wait for Submit to return
 //	bs:...                                same, from a background goroutine
 //	       kind  g good | d does not decode | v decodes, fails validation
 //	       to    0 = context.Background, -1 = already cancelled context, n>0 = n ms timeout
 //	       dd/vd/ad  latency injected in the decode / validate / apply stage, units of 100us
-//	       hold  - | d | v | a | f : hold the block inside the decode worker, the validate
-//	             worker, the apply runner (between receive and processing), or ApplyFunc
-//	             until `rel` (or the end of the scenario)
+//	       hold  - | d | v | a | q | f, optionally followed by a group digit (default 0): hold the
+//	             block inside the decode worker, the validate worker, the apply runner between
+//	             receive and processing (a), right after it was dequeued in order (q), or in
+//	             ApplyFunc (f) until its group is released
+//	nostart / start   (nostart must be the first command) do not Start() automatically / Start()
 //	gate / open       ApplyFunc blocks while the gate is closed
-//	rel               release every held block
+//	rel / rel:<g>     release every held block / the blocks of group g
+//	rpause / rresume  stop / resume reading Results()      (a full results channel blocks the apply runner)
+//	epause / eresume  stop / resume reading Errors()       (a full errors channel blocks workers)
 //	settle            wait until no pipeline step is possible any more (see stable())
 //	pc                read PendingCount()
-//	drain:<ms>        start WaitForDrain; after <ms> ms open the gate and release all holds;
-//	                  wait for WaitForDrain to return
+//	pcbg / pcgo       start a PendingCount() call in the background and hold it between its two
+//	                  reads / let it finish
+//	drain:<k>         start WaitForDrain; once it has returned, or k of its PendingCount polls
+//	                  have been observed, open the gate, release all holds and resume the
+//	                  readers; wait for WaitForDrain to return. No wall-clock enters the verdict:
+//	                  a WaitForDrain that returns while blocks are held does so before the release.
 //	stop / stopbg     Stop() synchronously / in a background goroutine
-//	sleep:<n>         sleep n*100us
+//	sleep:<n>         sleep n*100us (only perturbs the schedule)
 //
-// The scenario always ends with: open, rel, join background goroutines, settle
-// (unless stopped), Stop, leak check.
+// The scenario always ends with: open, rel, resume readers, pcgo, join background goroutines,
+// settle (unless stopped), Stop, leak check.
 //
 // The output is the event trace, one token per event: `<ev>:<blk>:<seq>` with
 // blk = index of the block's submit command in the scenario:
 //
+//	start                    Start() succeeded
 //	sub fail                 Submit accepted / failed
 //	dt dp dd  vt vp vd       decode / validate worker: take, put, drop (on cancellation)
 //	at ax ab aq              apply runner: receive, drop, buffer out of order, dequeue in order
-//	ap ad                    ApplyFunc called, item left the apply stage
+//	ap ad                    ApplyFunc called, item no longer in flight in the apply stage
 //	rs rd rr                 sent on results, dropped on cancellation, read from Results()
-//	pc:<n> pcq:<n>           PendingCount() = n (pcq: read while the pipeline is at rest)
-//	gate open rel drain_begin drain_ok drain_err stop_begin stop_ok settled unsettled leak:<n>
+//	pa:<v> pb:<n>            every PendingCount() call: processed count read, result
+//	pc:<n> pcq:<n>           result of the scenario's own `pc` (pcq: read while the pipeline is at rest)
+//	gate open rel drain_begin drain_ok drain_err drain_nopoll stop_begin stop_hung stop_ok stop_noop
+//	settled unsettled leak:<n>
 //
-// Trace points are next to, not atomic with, the operations they report.
-// Producers log before a channel send and consumers after the receive, so the
-// logged order respects causality for every single item; the two places where
-// this is impossible are normalised here (documented at onTrace case "dt" and pipeNormalise()).
+// aq, ab, ad and pa are logged with the apply stage's mutex held (exact order). The other
+// trace points are next to, not atomic with, the operations they report: producers log
+// before a channel send and consumers after the receive, so the logged order respects
+// causality for every single item; the two places where this is impossible are
+// normalised here (documented at onTrace case "dt" and pipeNormalise()).
 
 import (
 	"context"
@@ -150,7 +163,8 @@ type pipeBlk struct {
 	kind       byte // g d v
 	to         int
 	dd, vd, ad int
-	hold       byte // - d v a f
+	hold       byte // - d v a q f
+	group      int
 	bg         bool
 }
 
@@ -161,9 +175,9 @@ type pipeCmd struct {
 }
 
 type pipeScenario struct {
-	dw, vw, buf int
-	blocks      []pipeBlk
-	cmds        []pipeCmd
+	dw, vw, buf, mp int
+	blocks          []pipeBlk
+	cmds            []pipeCmd
 }
 
 func parsePipeScenario(op string) (*pipeScenario, bool) {
@@ -172,11 +186,14 @@ func parsePipeScenario(op string) (*pipeScenario, bool) {
 		return nil, false
 	}
 	hd := strings.Fields(parts[0])
-	if len(hd) != 4 || hd[0] != "pipe" {
+	if (len(hd) != 4 && len(hd) != 5) || hd[0] != "pipe" {
 		return nil, false
 	}
 	sc := &pipeScenario{}
-	for i, key := range []string{"dw=", "vw=", "buf="} {
+	for i, key := range []string{"dw=", "vw=", "buf=", "mp="} {
+		if i+1 >= len(hd) {
+			break
+		}
 		if !strings.HasPrefix(hd[i+1], key) {
 			return nil, false
 		}
@@ -191,20 +208,28 @@ func parsePipeScenario(op string) (*pipeScenario, bool) {
 			sc.vw = v
 		case 2:
 			sc.buf = v
+		case 3:
+			sc.mp = v
 		}
 	}
 	if sc.dw < 1 || sc.buf < 1 {
 		return nil, false
 	}
-	for _, tok := range strings.Fields(parts[1]) {
+	for n, tok := range strings.Fields(parts[1]) {
 		f := strings.Split(tok, ":")
 		switch f[0] {
 		case "s", "bs":
-			if len(f) != 7 || len(f[1]) != 1 || len(f[6]) != 1 {
+			if len(f) != 7 || len(f[1]) != 1 || len(f[6]) < 1 || len(f[6]) > 2 {
 				return nil, false
 			}
 			b := pipeBlk{kind: f[1][0], hold: f[6][0], bg: f[0] == "bs"}
-			if !strings.ContainsRune("gdv", rune(b.kind)) || !strings.ContainsRune("-dvaf", rune(b.hold)) {
+			if len(f[6]) == 2 {
+				if f[6][1] < '0' || f[6][1] > '9' || b.hold == '-' {
+					return nil, false
+				}
+				b.group = int(f[6][1] - '0')
+			}
+			if !strings.ContainsRune("gdv", rune(b.kind)) || !strings.ContainsRune("-dvaqf", rune(b.hold)) {
 				return nil, false
 			}
 			var err [4]error
@@ -222,11 +247,29 @@ func parsePipeScenario(op string) (*pipeScenario, bool) {
 			}
 			sc.cmds = append(sc.cmds, pipeCmd{name: f[0], blk: len(sc.blocks)})
 			sc.blocks = append(sc.blocks, b)
-		case "gate", "open", "rel", "settle", "pc", "stop", "stopbg":
+		case "nostart":
+			if len(f) != 1 || n != 0 {
+				return nil, false
+			}
+			sc.cmds = append(sc.cmds, pipeCmd{name: f[0]})
+		case "start", "gate", "open", "settle", "pc", "pcbg", "pcgo", "stop", "stopbg",
+			"rpause", "rresume", "epause", "eresume":
 			if len(f) != 1 {
 				return nil, false
 			}
 			sc.cmds = append(sc.cmds, pipeCmd{name: f[0]})
+		case "rel":
+			c := pipeCmd{name: "rel", arg: -1}
+			if len(f) == 2 {
+				v, err := strconv.Atoi(f[1])
+				if err != nil || v < 0 || v > 9 {
+					return nil, false
+				}
+				c.arg = v
+			} else if len(f) != 1 {
+				return nil, false
+			}
+			sc.cmds = append(sc.cmds, c)
 		case "drain", "sleep":
 			if len(f) != 2 {
 				return nil, false
@@ -265,26 +308,89 @@ const (
 	locGone
 )
 
+// pipeLatch is a gate that can be closed and opened repeatedly; wait() returns when it is open.
+type pipeLatch struct {
+	mu sync.Mutex
+	ch chan struct{} // closed = open
+}
+
+func newPipeLatch() *pipeLatch {
+	l := &pipeLatch{ch: make(chan struct{})}
+	close(l.ch)
+	return l
+}
+
+func (l *pipeLatch) isOpen() bool {
+	l.mu.Lock()
+	defer l.mu.Unlock()
+	select {
+	case <-l.ch:
+		return true
+	default:
+		return false
+	}
+}
+
+// shut closes the latch; reports whether it was open.
+func (l *pipeLatch) shut() bool {
+	l.mu.Lock()
+	defer l.mu.Unlock()
+	select {
+	case <-l.ch:
+		l.ch = make(chan struct{})
+		return true
+	default:
+		return false
+	}
+}
+
+// open opens the latch; reports whether it was shut.
+func (l *pipeLatch) open() bool {
+	l.mu.Lock()
+	defer l.mu.Unlock()
+	select {
+	case <-l.ch:
+		return false
+	default:
+		close(l.ch)
+		return true
+	}
+}
+
+func (l *pipeLatch) wait() {
+	l.mu.Lock()
+	ch := l.ch
+	l.mu.Unlock()
+	<-ch
+}
+
 type pipeRec struct {
 	gen uint64
 	sc  *pipeScenario
 
-	mu      sync.Mutex
-	events  []string
-	loc     []int  // per block
-	heldNow []bool // per block: currently blocked in a hold point
-	subSeen []bool
-	seqOf   []uint64
-	outQ    []int // blocks processed by the runner, waiting to be forwarded
-	draining bool // runner is between apply_done and the first result
+	mu           sync.Mutex
+	events       []string
+	loc          []int  // per block
+	heldNow      []bool // per block: currently blocked in a hold point
+	subSeen      []bool
+	seqOf        []uint64
+	curBlk       int // block dequeued by the apply stage and still in flight (-1: none)
 	subsInFlight int
-	rsSent, rrRead int // results sent (rs minus rd) and read from Results()
-	stopped bool
+	rsSent       int // results sent (rs minus rd)
+	rrRead       int // results read from Results()
+	stopped      bool
+	started      bool
+	drainPolls   int  // PendingCount results observed while WaitForDrain runs
+	inDrain      bool // a WaitForDrain call is running
+	pcHeld       bool // a background PendingCount is blocked between its two reads
 
-	gateMu   sync.Mutex
-	gateCh   chan struct{} // closed = gate open
-	relCh    chan struct{} // closed = holds released
-	released atomic.Bool
+	gate       *pipeLatch        // ApplyFunc gate
+	resGate    *pipeLatch        // results reader
+	errGate    *pipeLatch        // errors reader
+	pcGate     *pipeLatch        // background PendingCount between its two reads
+	relCh      [10]chan struct{} // closed = group released
+	released   [10]atomic.Bool
+	pcHoldNext atomic.Bool
 }
 
 var pipeCur atomic.Pointer[pipeRec]
@@ -325,16 +431,36 @@ var pipeKinds = map[string]string{
 	"decode_take": "dt", "decode_put": "dp", "decode_drop": "dd",
 	"validate_take": "vt", "validate_put": "vp", "validate_drop": "vd",
 	"apply_take": "at", "apply_drop": "ax", "apply_buf": "ab", "apply_deq": "aq",
-	"apply_done": "ad", "result": "rs", "result_drop": "rd",
+	"result": "rs", "result_drop": "rd",
 }
 
 func (r *pipeRec) onTrace(kind string, item *pipeline.BlockItem, n int) {
-	if kind == "pending_count" {
-		return // recorded by the caller of PendingCount (pc / pcq), see cmd pc
+	switch kind {
+	case "pending_processed":
+		r.ev(fmt.Sprintf("pa:%d", n))
+		return
+	case "pending_count":
+		r.mu.Lock()
+		r.events = append(r.events, fmt.Sprintf("pb:%d", n))
+		if r.inDrain {
+			r.drainPolls++
+		}
+		r.mu.Unlock()
+		return
+	case "apply_fin":
+		// the item dequeued last is no longer in flight (logged under the apply stage's mutex)
+		r.mu.Lock()
+		if b := r.curBlk; b >= 0 {
+			r.curBlk = -1
+			r.loc[b] = locOut
+			r.events = append(r.events, fmt.Sprintf("ad:%d:%d", b, r.seqOf[b]))
+		}
+		r.mu.Unlock()
+		return
 	}
 	short, ok := pipeKinds[kind]
 	if !ok {
-		return // alloc, apply_cancel: not part of the model's alphabet
+		return // alloc, apply_cancel, apply_done: not part of the model's alphabet
 	}
 	b := r.blkOf(item)
 	if b < 0 {
@@ -347,7 +473,7 @@ func (r *pipeRec) onTrace(kind string, item *pipeline.BlockItem, n int) {
 	switch short {
 	case "sub":
 		if r.subSeen[b] {
-			return // already inserted before the worker's take (see normalise)
+			return // already inserted before the worker's take (see case "dt")
 		}
 		r.subSeen[b] = true
 		r.loc[b] = locSubCh
@@ -375,11 +501,7 @@ func (r *pipeRec) onTrace(kind string, item *pipeline.BlockItem, n int) {
 		r.loc[b] = locPending
 	case "aq":
 		r.loc[b] = locDeq
-		r.draining = false
-	case "ad":
-		r.loc[b] = locOut
-		r.outQ = append(r.outQ, b)
-		r.draining = true
+		r.curBlk = b
 	case "rs", "rd":
 		if short == "rs" {
 			r.rsSent++
@@ -387,10 +509,6 @@ func (r *pipeRec) onTrace(kind string, item *pipeline.BlockItem, n int) {
 			r.rsSent-- // the send announced by the preceding rs was abandoned
 		}
 		r.loc[b] = locDone
-		r.draining = false
-		if len(r.outQ) > 0 {
-			r.outQ = r.outQ[1:]
-		}
 	}
 	r.events = append(r.events, fmt.Sprintf("%s:%d:%d", short, b, seq))
 }
@@ -401,17 +519,34 @@ func pipeSleep(units int) {
 	}
 }
 
+// hold blocks the calling pipeline goroutine until the block's group is released.
 func (r *pipeRec) hold(b int) {
+	g := r.sc.blocks[b].group
+	if r.released[g].Load() {
+		return
+	}
 	r.mu.Lock()
 	r.heldNow[b] = true
 	r.mu.Unlock()
-	<-r.relCh
+	<-r.relCh[g]
 	r.mu.Lock()
 	r.heldNow[b] = false
 	r.mu.Unlock()
 }
 
 func (r *pipeRec) onDelay(stage string, item *pipeline.BlockItem) {
+	if stage == "pending_read" {
+		if r.pcHoldNext.CompareAndSwap(true, false) {
+			r.mu.Lock()
+			r.pcHeld = true
+			r.mu.Unlock()
+			r.pcGate.wait()
+			r.mu.Lock()
+			r.pcHeld = false
+			r.mu.Unlock()
+		}
+		return
+	}
 	b := r.blkOf(item)
 	if b < 0 {
 		return
@@ -420,16 +555,20 @@ func (r *pipeRec) onDelay(stage string, item *pipeline.BlockItem) {
 	switch stage {
 	case "decode":
 		pipeSleep(bl.dd)
-		if bl.hold == 'd' && !r.released.Load() {
+		if bl.hold == 'd' {
 			r.hold(b)
 		}
 	case "validate":
 		pipeSleep(bl.vd)
-		if bl.hold == 'v' && !r.released.Load() {
+		if bl.hold == 'v' {
 			r.hold(b)
 		}
 	case "apply":
-		if bl.hold == 'a' && !r.released.Load() {
+		if bl.hold == 'a' {
+			r.hold(b)
+		}
+	case "apply_deq":
+		if bl.hold == 'q' {
 			r.hold(b)
 		}
 	}
@@ -443,20 +582,15 @@ func (r *pipeRec) applyFunc(item *pipeline.BlockItem) error {
 	r.mu.Lock()
 	r.loc[b] = locInApply
 	r.events = append(r.events, fmt.Sprintf("ap:%d:%d", b, item.SequenceNumber()))
-	r.mu.Unlock()
-	r.gateMu.Lock()
-	g := r.gateCh
-	r.gateMu.Unlock()
-	r.mu.Lock()
 	r.heldNow[b] = true
 	r.mu.Unlock()
-	<-g
+	r.gate.wait()
 	r.mu.Lock()
 	r.heldNow[b] = false
 	r.mu.Unlock()
 	bl := r.sc.blocks[b]
 	pipeSleep(bl.ad)
-	if bl.hold == 'f' && !r.released.Load() {
+	if bl.hold == 'f' {
 		r.hold(b)
 	}
 	return nil
@@ -470,51 +604,68 @@ func (r *pipeRec) applyFunc(item *pipeline.BlockItem) error {
 func (r *pipeRec) stable() bool {
 	r.mu.Lock()
 	defer r.mu.Unlock()
-	if r.subsInFlight > 0 {
+	if r.subsInFlight > 0 || r.inDrain {
 		return false
 	}
-	if !r.stopped && r.rsSent != r.rrRead {
+	if !r.errGate.isOpen() {
+		return false // a paused errors reader may block workers invisibly
+	}
+	// `rs` is logged before the send on the results channel (capacity buf): with the reader
+	// paused, more than buf announced-but-unread results mean the apply goroutine is blocked
+	// in that send
+	fwdBlocked := false
+	if !r.resGate.isOpen() {
+		if r.rsSent-r.rrRead <= r.sc.buf {
+			return false
+		}
+		fwdBlocked = true
+	} else if !r.stopped && r.rsSent != r.rrRead {
 		return false // a result is still on its way to the reader
 	}
-	gateOpen := false
-	select {
-	case <-r.gateCh:
-		gateOpen = true
-	default:
-	}
+	gateOpen := r.gate.isOpen()
 	decBusy, valBusy := 0, 0
-	runnerBusy := r.draining || len(r.outQ) > 0
+	runnerBusy := fwdBlocked
 	for b, l := range r.loc {
+		held := r.heldNow[b] && !r.released[r.sc.blocks[b].group].Load()
 		switch l {
 		case locDecW:
-			if !r.heldNow[b] {
+			if !held {
 				return false
 			}
 			decBusy++
 		case locValW:
-			if !r.heldNow[b] {
+			if !held {
 				return false
 			}
 			valBusy++
 		case locHand:
-			if !r.heldNow[b] {
+			if !held {
 				return false
 			}
 			runnerBusy = true
 		case locDeq:
-			return false
-		case locInApply:
-			// blocked in ApplyFunc: by the gate or by an `f` hold
-			if !r.heldNow[b] || (gateOpen && !(r.sc.blocks[b].hold == 'f' && !r.released.Load())) {
+			// between dequeue and ApplyFunc: at rest only in a `q` hold
+			if !(held && r.sc.blocks[b].hold == 'q') {
 				return false
 			}
 			runnerBusy = true
-		case locOut:
-			return false
+		case locInApply:
+			// blocked in ApplyFunc: by the closed gate or by an `f` hold
+			if !r.heldNow[b] {
+				return false
+			}
+			if gateOpen && !(held && r.sc.blocks[b].hold == 'f') {
+				return false
+			}
+			runnerBusy = true
 		}
 	}
-	if r.draining || len(r.outQ) > 0 {
-		return false
+	for _, l := range r.loc {
+		// processed, waiting to be forwarded: at rest only while the apply goroutine is held
+		// on a later block of the same batch
+		if l == locOut && !runnerBusy {
+			return false
+		}
 	}
 	for _, l := range r.loc {
 		switch l {
@@ -539,17 +690,23 @@ func (r *pipeRec) stable() bool {
 	return true
 }
 
+// settle waits until stable() holds (twice in a row, a moment apart: trace points
+// lag the operations by a few instructions). The deadline is generous: "unsettled"
+// is reported as a stalled pipeline.
 func (r *pipeRec) settle(timeout time.Duration) bool {
+	if pipeUnsettledSeen.Load() {
+		timeout = 3 * time.Second // the run's verdict is settled already
+	}
 	deadline := time.Now().Add(timeout)
 	for {
 		if r.stable() {
-			// a second look after a short pause: trace points lag the operations by a few instructions
 			time.Sleep(300 * time.Microsecond)
 			if r.stable() {
 				return true
 			}
 		}
 		if time.Now().After(deadline) {
+			pipeUnsettledSeen.Store(true)
 			return false
 		}
 		time.Sleep(200 * time.Microsecond)
@@ -579,9 +736,13 @@ func pipeNormalise(ev []string) []string {
 	return out
 }
 
+// pipeLeak counts the goroutines still executing pipeline code after Stop
+// returned. Goroutines that are on their way out (deferred calls) get time to
+// finish: only a goroutine that stays is reported.
 func pipeLeak() int {
-	// goroutines still executing pipeline code
-	for i := 0; i < 50; i++ {
+	deadline := time.Now().Add(30 * time.Second)
+	wait := time.Millisecond
+	for {
 		buf := make([]byte, 1<<20)
 		n := runtime.Stack(buf, true)
 		c := 0
@@ -590,15 +751,28 @@ func pipeLeak() int {
 				c++
 			}
 		}
-		if c == 0 {
-			return 0
-		}
-		time.Sleep(2 * time.Millisecond)
-		if i == 49 {
+		if c == 0 || time.Now().After(deadline) {
 			return c
 		}
+		time.Sleep(wait)
+		if wait < 200*time.Millisecond {
+			wait *= 2
+		}
 	}
-	return 0
+}
+
+const pipeDeadline = 60 * time.Second
+
+// once a Stop has been seen to hang the verdict of the run is settled; later scenarios
+// do not wait the full deadline again
+var pipeStopHungSeen atomic.Bool
+var pipeUnsettledSeen atomic.Bool
+
+func pipeStopWait() time.Duration {
+	if pipeStopHungSeen.Load() {
+		return 3 * time.Second
+	}
+	return pipeDeadline
 }
 
 // runPipe executes one scenario against the real pipeline.
@@ -613,11 +787,13 @@ func runPipe(op string) string {
 	}
 	nb := len(sc.blocks)
 	r := &pipeRec{
-		gen: pipeGen.Add(1), sc: sc,
+		gen: pipeGen.Add(1), sc: sc, curBlk: -1,
 		loc: make([]int, nb), heldNow: make([]bool, nb), subSeen: make([]bool, nb), seqOf: make([]uint64, nb),
-		gateCh: make(chan struct{}), relCh: make(chan struct{}),
+		gate: newPipeLatch(), resGate: newPipeLatch(), errGate: newPipeLatch(), pcGate: newPipeLatch(),
 	}
-	close(r.gateCh) // gate open
+	for g := range r.relCh {
+		r.relCh[g] = make(chan struct{})
+	}
 	pipeCur.Store(r)
 	defer pipeCur.CompareAndSwap(r, nil)
 
@@ -628,6 +804,9 @@ func runPipe(op string) string {
 		pipeline.WithSkipBodyHashValidation(true),
 		pipeline.WithApplyFunc(r.applyFunc),
 	}
+	if sc.mp > 0 {
+		opts = append(opts, pipeline.WithMaxPendingBlocks(sc.mp))
+	}
 	if sc.vw > 0 {
 		opts = append(opts,
 			pipeline.WithEta0Provider(pipeline.StaticEta0Provider(pipeEta0)),
@@ -635,57 +814,114 @@ func runPipe(op string) string {
 			pipeline.WithVerifyConfig(pipeVerifyConfig()))
 	}
 	p := pipeline.NewBlockPipeline(opts...)
-	if err := p.Start(context.Background()); err != nil {
-		return "start-error " + err.Error()
-	}
 	var readers sync.WaitGroup
-	readers.Add(2)
-	go func() {
-		defer readers.Done()
-		for item := range p.Results() {
-			if b := r.blkOf(item); b >= 0 {
-				r.mu.Lock()
-				r.rrRead++
-				r.events = append(r.events, fmt.Sprintf("rr:%d:%d", b, item.SequenceNumber()))
-				r.mu.Unlock()
+	startErr := ""
+	doStart := func() {
+		r.mu.Lock()
+		already := r.started
+		r.mu.Unlock()
+		if already {
+			return
+		}
+		if err := p.Start(context.Background()); err != nil {
+			if startErr == "" {
+				startErr = err.Error()
 			}
+			r.ev("start_err")
+			return
 		}
-	}()
-	go func() {
-		defer readers.Done()
-		for range p.Errors() {
-		}
-	}()
+		r.mu.Lock()
+		r.started = true
+		r.events = append(r.events, "start")
+		r.mu.Unlock()
+		readers.Add(2)
+		results, errs := p.Results(), p.Errors()
+		go func() {
+			defer readers.Done()
+			for {
+				r.resGate.wait()
+				item, ok := <-results
+				if !ok {
+					return
+				}
+				if b := r.blkOf(item); b >= 0 {
+					r.mu.Lock()
+					r.rrRead++
+					r.events = append(r.events, fmt.Sprintf("rr:%d:%d", b, item.SequenceNumber()))
+					r.mu.Unlock()
+				}
+			}
+		}()
+		go func() {
+			defer readers.Done()
+			for {
+				r.errGate.wait()
+				if _, ok := <-errs; !ok {
+					return
+				}
+			}
+		}()
+	}
 
 	var bg sync.WaitGroup
 	var stopOnce sync.Once
 	stopDone := make(chan struct{})
 	doStop := func() {
+		r.mu.Lock()
+		started := r.started
+		r.mu.Unlock()
+		if !started {
+			_ = p.Stop() // a no-op on a pipeline that was never started
+			r.ev("stop_noop")
+			return
+		}
 		stopOnce.Do(func() {
 			r.mu.Lock()
 			r.stopped = true
 			r.events = append(r.events, "stop_begin")
 			r.mu.Unlock()
-			_ = p.Stop()
+			ret := make(chan struct{})
+			go func() { _ = p.Stop(); close(ret) }()
+			select {
+			case <-ret:
+			case <-time.After(pipeStopWait()):
+				// Stop does not return while a stream is unread: report it, then unblock it
+				pipeStopHungSeen.Store(true)
+				r.ev("stop_hung")
+				r.resGate.open()
+				r.errGate.open()
+				<-ret
+			}
 			r.ev("stop_ok")
 			close(stopDone)
 		})
 	}
 	openGate := func() {
-		r.gateMu.Lock()
-		select {
-		case <-r.gateCh:
-		default:
-			close(r.gateCh)
+		if r.gate.open() {
 			r.ev("open")
 		}
-		r.gateMu.Unlock()
 	}
-	release := func() {
-		if !r.released.Swap(true) {
-			r.ev("rel")
-			close(r.relCh)
+	release := func(g int) {
+		logged := false
+		for i := range r.relCh {
+			if (g < 0 || g == i) && !r.released[i].Swap(true) {
+				close(r.relCh[i])
+				if !logged {
+					r.ev("rel")
+					logged = true
+				}
+			}
 		}
+	}
+	resume := func() {
+		r.resGate.open()
+		r.errGate.open()
+	}
+	var pcWG sync.WaitGroup
+	pcGo := func() {
+		r.pcHoldNext.Store(false)
+		r.pcGate.open()
+		pcWG.Wait()
 	}
 	submit := func(b int) {
 		bl := sc.blocks[b]
@@ -714,35 +950,46 @@ func runPipe(op string) string {
 		r.mu.Lock()
 		r.subsInFlight--
 		if err != nil && r.loc[b] == locNone {
-			// refused before a sequence number was allocated (pipeline stopped)
+			// refused before a sequence number was allocated (not started, stopped, or gave up
+			// waiting for its turn)
 			r.loc[b] = locGone
 			r.events = append(r.events, fmt.Sprintf("fail:%d:-", b))
 		}
 		r.mu.Unlock()
 	}
 
+	autoStart := len(sc.cmds) == 0 || sc.cmds[0].name != "nostart"
+	if autoStart {
+		doStart()
+	}
 	for _, c := range sc.cmds {
 		switch c.name {
+		case "nostart":
+		case "start":
+			doStart()
 		case "s":
 			submit(c.blk)
 		case "bs":
 			bg.Add(1)
 			go func(b int) { defer bg.Done(); submit(b) }(c.blk)
 		case "gate":
-			r.gateMu.Lock()
-			select {
-			case <-r.gateCh:
-				r.gateCh = make(chan struct{})
+			if r.gate.shut() {
 				r.ev("gate")
-			default:
 			}
-			r.gateMu.Unlock()
 		case "open":
 			openGate()
 		case "rel":
-			release()
+			release(c.arg)
+		case "rpause":
+			r.resGate.shut()
+		case "rresume":
+			r.resGate.open()
+		case "epause":
+			r.errGate.shut()
+		case "eresume":
+			r.errGate.open()
 		case "settle":
-			if r.settle(10 * time.Second) {
+			if r.settle(pipeDeadline) {
 				r.ev("settled")
 			} else {
 				r.ev("unsettled")
@@ -755,25 +1002,80 @@ func runPipe(op string) string {
 			} else {
 				r.ev(fmt.Sprintf("pc:%d", n))
 			}
+		case "pcbg":
+			r.mu.Lock()
+			busy := r.pcHeld || !r.started
+			r.mu.Unlock()
+			if busy || r.pcHoldNext.Load() {
+				break
+			}
+			r.pcGate.shut()
+			r.pcHoldNext.Store(true)
+			pcWG.Add(1)
+			go func() { defer pcWG.Done(); _ = p.PendingCount() }()
+			// wait until the call is parked between its two reads
+			for dl := time.Now().Add(pipeDeadline); time.Now().Before(dl); time.Sleep(100 * time.Microsecond) {
+				r.mu.Lock()
+				held := r.pcHeld
+				r.mu.Unlock()
+				if held {
+					break
+				}
+			}
+		case "pcgo":
+			pcGo()
 		case "drain":
-			r.ev("drain_begin")
+			r.mu.Lock()
+			started := r.started
+			r.mu.Unlock()
+			if !started {
+				break
+			}
+			pcGo() // a parked PendingCount call must not be mistaken for one of WaitForDrain's polls
+			r.mu.Lock()
+			r.inDrain = true
+			r.drainPolls = 0
+			r.events = append(r.events, "drain_begin")
+			r.mu.Unlock()
 			done := make(chan error, 1)
-			ctx, cancel := context.WithTimeout(context.Background(), 20*time.Second)
+			ctx, cancel := context.WithTimeout(context.Background(), 2*pipeDeadline)
 			go func() { done <- p.WaitForDrain(ctx) }()
 			var err error
-			select {
-			case err = <-done:
-			case <-time.After(time.Duration(c.arg) * time.Millisecond):
+			returned := false
+			// event-synchronised: WaitForDrain's own polls are observed through the hook
+			for dl := time.Now().Add(pipeDeadline); !returned; time.Sleep(200 * time.Microsecond) {
+				select {
+				case err = <-done:
+					returned = true
+					continue
+				default:
+				}
+				r.mu.Lock()
+				polls := r.drainPolls
+				r.mu.Unlock()
+				if polls >= c.arg {
+					break
+				}
+				if time.Now().After(dl) {
+					r.ev("drain_nopoll")
+					break
+				}
+			}
+			if !returned {
 				openGate()
-				release()
+				release(-1)
+				resume()
 				err = <-done
 			}
 			cancel()
+			r.mu.Lock()
+			r.inDrain = false
 			if err == nil {
-				r.ev("drain_ok")
+				r.events = append(r.events, "drain_ok")
 			} else {
-				r.ev("drain_err")
+				r.events = append(r.events, "drain_err")
 			}
+			r.mu.Unlock()
 		case "stop":
 			doStop()
 		case "stopbg":
@@ -784,21 +1086,25 @@ func runPipe(op string) string {
 		}
 	}
 	openGate()
-	release()
+	release(-1)
+	resume()
+	pcGo()
 	bg.Wait()
 	r.mu.Lock()
-	stopped := r.stopped
+	stopped, started := r.stopped, r.started
 	r.mu.Unlock()
-	if !stopped {
-		if r.settle(10 * time.Second) {
+	if started && !stopped {
+		if r.settle(pipeDeadline) {
 			r.ev("settled")
 		} else {
 			r.ev("unsettled")
 		}
 	}
-	doStop()
-	<-stopDone
-	readers.Wait()
+	if started {
+		doStop()
+		<-stopDone
+		readers.Wait()
+	}
 	r.ev(fmt.Sprintf("leak:%d", pipeLeak()))
 	r.mu.Lock()
 	ev := pipeNormalise(r.events)
